@@ -52,7 +52,7 @@ def build_ir(wd, tus, shims):
         src = os.path.join(REPO, TUS[t]); jobs.append((src, os.path.join(wd, t + '.ll')))
     def one(j):
         src, out = j
-        if src.endswith('.c'): rc, o = _run(['clang-14', '-std=gnu99', '-O1', '-fno-vectorize', '-fno-slp-vectorize', '-fno-unroll-loops', '-S', '-emit-llvm', '-w', '-I' + REPO, '-I' + REPO + '/kerl', src, '-o', out])
+        if src.endswith('.c'): rc, o = _run(['clang-14', '-std=gnu99', '-O1', '-fno-vectorize', '-fno-slp-vectorize', '-fno-unroll-loops', '-S', '-emit-llvm', '-w', '-DHAVE_CONFIG_H', '-I' + REPO, '-I' + REPO + '/config', '-I' + REPO + '/kerl', src, '-o', out])          # as the Makefile compiles kerl.c (readline support on)
         else: rc, o = _run(['clang++-14'] + IRFLAGS + ['-I' + os.path.join(VERIF, 'shims'), src, '-o', out])
         return rc, o, src
     with cf.ThreadPoolExecutor(16) as ex:
@@ -69,7 +69,7 @@ def build_native(wd, shims, tus=None, extra_src=()):
     for e in extra_src: jobs.append((e, os.path.join(wd, 'n_x_' + os.path.basename(e) + '.o')))
     def one(j):
         src, out = j
-        if src.endswith('.c'): rc, o = _run(['gcc', '-std=gnu99', '-O1', '-fPIC', '-w', '-I' + REPO, '-I' + REPO + '/kerl', '-c', src, '-o', out])
+        if src.endswith('.c'): rc, o = _run(['gcc', '-std=gnu99', '-O1', '-fPIC', '-w', '-DHAVE_CONFIG_H', '-I' + REPO, '-I' + REPO + '/config', '-I' + REPO + '/kerl', '-c', src, '-o', out])
         else: rc, o = _run(['g++'] + NATFLAGS + ['-I' + os.path.join(VERIF, 'shims'), '-c', src, '-o', out])
         return rc, o, src
     with cf.ThreadPoolExecutor(16) as ex:
@@ -77,7 +77,7 @@ def build_native(wd, shims, tus=None, extra_src=()):
             if rc != 0: raise BuildError('g++ failed on %s:\n%s' % (src, o[-3000:]))
     so = os.path.join(wd, 'native.so')
     secp = secp_lib(wd)
-    rc, o = _run(['g++', '-shared', '-o', so] + [j[1] for j in jobs] + [secp])
+    rc, o = _run(['g++', '-shared', '-o', so] + [j[1] for j in jobs] + [secp, '-lreadline'])
     if rc != 0: raise BuildError('link failed:\n' + o[-3000:])
     return so
 
